@@ -567,7 +567,8 @@ def gen_prheader_http(ctx, env, rng) -> list[dict]:
         m = rng.choice(media)
         cases.append({"kind": "prheader_http", "source": "init", "stream": m["stream"], "name": m["name"],
                       "mode": rng.choice(["vod", "live"]),
-                      "drm": rng.choice(["playready", "playready-moov", "all", "playready-moov-pro,clearkey", "all-moov"]),
+                      "drm": rng.choice(["playready", "playready-moov", "all", "playready-moov-pro,clearkey", "all-moov",
+                                         "clearkey-cenc,playready", "marlin-pro,playready", "playready,clearkey-cenc"]),
                       "version": rng.choice(lib.PR_VERSIONS), "la": gen_la(rng)})
     manifests = ["hand_made.mpd", "manifest_e.mpd", "manifest_h.mpd", "manifest_n.mpd", "manifest_b.mpd",
                  "manifest_ef.mpd", "manifest_i.mpd"]
@@ -949,9 +950,12 @@ def gen_cp_cases(ctx, rng) -> list[dict]:
     sels = [lib.selection_string(s) for s in lib.all_selections()] + ["all", "all-moov", "all-cenc-pro", "none",
                                                                       "playready-cenc,clearkey-moov,marlin",
                                                                       "playready-pro,clearkey-cenc-moov"]
+    mixed = lib.targeted_mixed_selections()
+    rng.shuffle(mixed)
+    sels += mixed[:ctx.scale(30, len(mixed))] + [lib.random_mixed_selection(rng) for _ in range(ctx.scale(10, 100))]
     cases = []
     rng.shuffle(sels)
-    n = ctx.scale(70, len(sels) * 4)
+    n = ctx.scale(105, len(sels) * 3)
     for i in range(n):
         drm = sels[i % len(sels)]
         route = "mps" if rng.random() < .2 else "dash"
